@@ -8,21 +8,22 @@ EXPLANATION = ('Sequential scenarios start the real deque at an arbitrary 62-bit
                'is handed out exactly once.')
 ASSUMPTIONS = ['index offsets (total prior traffic) below 2^62; beyond 2^63 try_steal compares indices as signed values',
                'concurrent scenarios: 2 threads, <= 2K-1 context switches, <= 3 owner operations + 2 steals']
-TIMEOUT = {'quick': 300, 'thorough': 1800}
+TIMEOUT = {'quick': 900, 'thorough': 1800}
 MT = 'C12/deque_mt.cpp'
 
 
 def scenarios(tier):
     s = [Scenario('seq-cap2-n3', 'C12/deque_seq.cpp', ['CAP=2', 'NOPS=3', OFFMAX], unwind=6, cover=[1, 2]),
-         Scenario('seq-cap2-grow-n5', 'C12/deque_seq.cpp', ['CAP=2', 'NOPS=5', OFFMAX, 'PUSHFIRST=3'], unwind=8, cover=[1, 2],
-                  note='three pushes force a growth at an arbitrary offset, then two symbolic operations, then drain'),
+         Scenario('seq-cap2-grow-n4', 'C12/deque_seq.cpp', ['CAP=2', 'NOPS=4', OFFMAX, 'PUSHFIRST=3'], unwind=8, cover=[1, 2],
+                  note='three pushes force a growth at an arbitrary offset, then one symbolic operation, then drain'),
          Scenario('mt-push2-pop1-steal1-K2', MT, [], threads=2, K=2, unwind=6, cover=[1, 2]),
          Scenario('mt-push2-pop1-steal1-K3', MT, [], threads=2, K=3, unwind=6, cover=[1, 2]),
          Scenario('mt-grow-vs-steal-off2', MT, ['OFF=2', 'PREPUSH=2', 'NPUSH=1', 'NPOP=0', 'NSTEAL=1'], threads=2, K=2, unwind=6, cover=[2],
                   note='owner push triggers growth while the thief sits between its capacity load and its slot load'),
          Scenario('mt-last-item-race', MT, ['PREPUSH=1', 'NPUSH=0', 'NPOP=1', 'NSTEAL=1'], threads=2, K=3, unwind=6, cover=[])]
     if tier == 'thorough':
-        s += [Scenario('seq-cap2-n5', 'C12/deque_seq.cpp', ['CAP=2', 'NOPS=5', OFFMAX], unwind=8, cover=[1, 2]),
+        s += [Scenario('seq-cap2-grow-n5', 'C12/deque_seq.cpp', ['CAP=2', 'NOPS=5', OFFMAX, 'PUSHFIRST=3'], unwind=8, cover=[1, 2]),
+              Scenario('seq-cap2-n5', 'C12/deque_seq.cpp', ['CAP=2', 'NOPS=5', OFFMAX], unwind=8, cover=[1, 2]),
               Scenario('seq-cap4-grow-n7', 'C12/deque_seq.cpp', ['CAP=4', 'NOPS=7', OFFMAX, 'PUSHFIRST=5'], unwind=10, cover=[1, 2]),
               Scenario('mt-grow-vs-steal-off6-K3', MT, ['OFF=6', 'PREPUSH=2', 'NPUSH=2', 'NPOP=1', 'NSTEAL=2'], threads=2, K=3, unwind=6, cover=[2]),
               Scenario('mt-3threads-K2', MT, ['THIEF2', 'PREPUSH=2', 'NPUSH=1', 'NPOP=1'], threads=3, K=2, unwind=6, cover=[])]
